@@ -1,5 +1,6 @@
 import LabtechModel.Proofs.Submit
 import LabtechModel.Proofs.InvMain
+import LabtechModel.Proofs.Inv2Main
 /-!
 # C10 — One task's failure never disturbs unrelated tasks
 
@@ -21,8 +22,23 @@ Whole runs (from the master invariant of `Proofs/InvLoop.lean`):
   terminates by returning;
 * `no_start_after_raise`: once `LabError` is raised the trace does not grow any more (no further
   task is started), whatever the rest of the schedule.
-Not covered at whole-run level: "executes every task that does not depend on a failed one and returns its value"
-(needs the reference-evaluation theorem of C01).
+Failure-aware reference evaluation (from `ValInv` / `FlagInv` of `Proofs/Inv2*.lean`), hypotheses `RefHypF`
+(`Acyclic`, `InstOK`, a choice `obj` of one object per tid), `FuelOK`, `LimitsPos`, fair schedule that is
+long enough; the cache pre-state is ARBITRARY (a load returns whatever is stored):
+* `refEvalF_spec`: what `refEvalF` is — no value if the worker dies (process backends only), the stored
+  value if cached beforehand and not busted, no value if `run()` raises, otherwise `run()` applied to
+  the reference values of the task objects in its parameters (a failed one read as `none`);
+* `unrelated_tasks_return_reference`: with `continue_on_failure`, whatever subset of tasks raise or
+  die, `run_tasks` returns exactly the requested tasks that have a reference value, each with that
+  value, in request order; `returned_iff_reference` is the membership form (a failed task, or one that
+  lets a failed dependency's `TaskError` propagate, is absent);
+* `reference_when_nothing_fails`: the same equation for `continue_on_failure = False` when no planned
+  task fails (this is what C01's `returns_reference_values` is a corollary of);
+* `every_yield_is_refF`: every outcome handed to the coordinator at any point of any run is the
+  reference outcome: `ok v` iff `refEvalF t = some v`, `died` iff the worker dies, `exc` otherwise;
+* `store_after_run` / `store_at_loop_head`: the final store, as a map, is the pre-state overridden by
+  `(t, refEvalF t)` for exactly the planned tasks that were not cached beforehand (= executed, `Props.C03`), whose type is
+  cacheable and that have a reference value; every other key keeps its pre-state entry (or absence).
 -/
 namespace Lt.Props.C10
 open Lt
@@ -184,5 +200,179 @@ example (be : Backend) :
       [] 4 (List.replicate 5 chooseAll)).status = .returned r :=
   failure_isolated_returns _ _ [] 4 _ rfl invExP_acyclic invExP_fuel (invEx_limits be 2 (by decide))
     (fair_replicate 5 chooseAll rfl) (by cases be <;> decide)
+
+/-! ## failure-aware reference evaluation -/
+
+/-- what `refEvalF` is, for a task that has an object -/
+theorem refEvalF_spec (cfg : Config) (p : Problem) (store : Store) (obj : Tid → Iid) (H : RefHypF p obj) (i : Iid) :
+    refEvalF cfg p store obj (p.tidOf i) =
+      if diesIn cfg p (p.tidOf i) then none
+      else if useCache cfg p store (p.tidOf i) then lookup (p.tidOf i) store
+      else if p.fails (p.tidOf i) then none
+      else p.behave (p.tidOf i)
+        (((p.children (obj (p.tidOf i))).map p.tidOf).map (refEvalF cfg p store obj)) :=
+  refEvalF_unfold cfg p store obj H.acyc H.objOK i
+
+/-- a worker can die only under a process backend -/
+theorem diesIn_spec (cfg : Config) (p : Problem) (t : Tid) :
+    diesIn cfg p t = true ↔ (cfg.backend ≠ .serial ∧ p.dies t = true) := by
+  simp only [diesIn]
+  split <;> simp_all
+
+/-- the reference outcome: `died` iff the worker dies, else `ok` of the reference value, else `exc` -/
+theorem refOutcome_spec (cfg : Config) (p : Problem) (store : Store) (obj : Tid → Iid) (t : Tid) :
+    (∀ v, refOutcome cfg p store obj t = .ok v ↔ refEvalF cfg p store obj t = some v) ∧
+    (refOutcome cfg p store obj t = .died ↔ diesIn cfg p t = true) ∧
+    (refOutcome cfg p store obj t = .exc ↔
+      (diesIn cfg p t = false ∧ refEvalF cfg p store obj t = none)) := by
+  refine ⟨refOutcome_ok_iff cfg p store obj t, ?_, ?_⟩
+  · simp only [refOutcome]
+    cases diesIn cfg p t with
+    | true => simp
+    | false => cases refEvalF cfg p store obj t <;> simp
+  · simp only [refOutcome]
+    cases diesIn cfg p t with
+    | true => simp
+    | false => cases refEvalF cfg p store obj t <;> simp
+
+/-- with `continue_on_failure`, whatever fails, the run returns exactly the requested tasks that have
+    a reference value, with that value, in request order. The cache pre-state is arbitrary. -/
+theorem unrelated_tasks_return_reference (cfg : Config) (p : Problem) (store : Store) (fuel : Nat)
+    (sched : List Choice) (obj : Tid → Iid) (H : RefHypF p obj) (hcf : cfg.contOnFail = true)
+    (hF : FuelOK p fuel) (hL : LimitsPos cfg p) (hfair : Fair sched)
+    (hlen : (plan cfg p store fuel).pending.length + 1 ≤ sched.length) :
+    (run cfg p store fuel sched).status =
+      .returned ((dedup (reqTids p)).filterMap
+        (fun t => (refEvalF cfg p store obj t).map (fun v => (t, v)))) :=
+  run_returns_refF cfg p store fuel sched obj H (Or.inl hcf) hF hL hfair hlen
+
+/-- membership form: `(t, v)` is returned iff `t` was requested and `v` is its reference value -/
+theorem returned_iff_reference (cfg : Config) (p : Problem) (store : Store) (fuel : Nat)
+    (sched : List Choice) (obj : Tid → Iid) (H : RefHypF p obj) (hcf : cfg.contOnFail = true)
+    (hF : FuelOK p fuel) (hL : LimitsPos cfg p) (hfair : Fair sched)
+    (hlen : (plan cfg p store fuel).pending.length + 1 ≤ sched.length) :
+    ∃ r, (run cfg p store fuel sched).status = .returned r ∧
+      ∀ t v, (t, v) ∈ r ↔ (t ∈ reqTids p ∧ refEvalF cfg p store obj t = some v) := by
+  refine ⟨_, unrelated_tasks_return_reference cfg p store fuel sched obj H hcf hF hL hfair hlen, ?_⟩
+  intro t v
+  simp only [List.mem_filterMap, mem_dedup]
+  constructor
+  · rintro ⟨a, ha, h⟩
+    cases hv : refEvalF cfg p store obj a with
+    | none => simp [hv] at h
+    | some w =>
+      simp only [hv, Option.map_some, Option.some.injEq, Prod.mk.injEq] at h
+      obtain ⟨h1, h2⟩ := h
+      subst h1; subst h2
+      exact ⟨ha, hv⟩
+  · rintro ⟨ht, hv⟩
+    exact ⟨t, ht, by simp [hv]⟩
+
+/-- the same equation without `continue_on_failure`, when no planned task fails -/
+theorem reference_when_nothing_fails (cfg : Config) (p : Problem) (store : Store) (fuel : Nat)
+    (sched : List Choice) (obj : Tid → Iid) (H : RefHypF p obj)
+    (hnf : ∀ t ∈ (plan cfg p store fuel).pending, (refEvalF cfg p store obj t).isSome)
+    (hF : FuelOK p fuel) (hL : LimitsPos cfg p) (hfair : Fair sched)
+    (hlen : (plan cfg p store fuel).pending.length + 1 ≤ sched.length) :
+    (run cfg p store fuel sched).status =
+      .returned ((dedup (reqTids p)).filterMap
+        (fun t => (refEvalF cfg p store obj t).map (fun v => (t, v)))) :=
+  run_returns_refF cfg p store fuel sched obj H (Or.inr hnf) hF hL hfair hlen
+
+/-- every outcome handed to the coordinator, at any point of any run (no fairness needed), is the
+    reference outcome of its task -/
+theorem every_yield_is_refF (cfg : Config) (p : Problem) (store : Store) (fuel : Nat)
+    (sched : List Choice) (obj : Tid → Iid) (H : RefHypF p obj) (hcf : cfg.contOnFail = true)
+    (t : Tid) (o : Outcome) (h : Ev.yield t o ∈ (run cfg p store fuel sched).trace) :
+    o = refOutcome cfg p store obj t ∧ ∀ v, o = .ok v ↔ refEvalF cfg p store obj t = some v := by
+  rw [run_trace] at h
+  have := (loopHead_val cfg p store fuel sched obj H (Or.inl hcf)).yOk t o h
+  refine ⟨this, fun v => ?_⟩
+  rw [this]
+  exact refOutcome_ok_iff cfg p store obj t v
+
+/-- what `storeAfter` is: an executed, successful task of a cacheable type saved its value;
+    everything else leaves the pre-state entry (or its absence) -/
+theorem storeAfter_spec (cfg : Config) (p : Problem) (store : Store) (obj : Tid → Iid) (t : Tid) :
+    (∀ v, useCache cfg p store t = false → p.cacheable (p.ty t) = true →
+      refEvalF cfg p store obj t = some v → storeAfter cfg p store obj t = some v) ∧
+    ((useCache cfg p store t = true ∨ p.cacheable (p.ty t) = false ∨ refEvalF cfg p store obj t = none) →
+      storeAfter cfg p store obj t = lookup t store) := by
+  constructor
+  · intro v h1 h2 h3
+    simp [storeAfter, h1, h2, h3]
+  · intro h
+    simp only [storeAfter]
+    split
+    · next hc =>
+      rcases h with h | h | h
+      · rw [hc.1] at h; cases h
+      · rw [hc.2] at h; cases h
+      · rw [h]
+    · rfl
+
+/-- the store at every loop head: pre-state, overridden by `storeAfter` for the tasks delivered so far -/
+theorem store_at_loop_head (cfg : Config) (p : Problem) (store : Store) (fuel : Nat) (sched : List Choice)
+    (obj : Tid → Iid) (H : RefHypF p obj) (hcf : cfg.contOnFail = true) (t : Tid) :
+    lookup t (runLoop cfg p (reqTids p) sched (initRS cfg p store fuel)).store =
+      if t ∈ yieldedOf (runLoop cfg p (reqTids p) sched (initRS cfg p store fuel)).trace
+      then storeAfter cfg p store obj t else lookup t store :=
+  loopHead_store cfg p store fuel sched obj H (Or.inl hcf) t
+
+/-- the final store, as a map: the pre-state overridden by `(t, refEvalF t)` for exactly the planned
+    tasks that were not cached beforehand, are cacheable and have a reference value; nothing else
+    changes (in particular no entry for a failed task, none for a key outside the plan) -/
+theorem store_after_run (cfg : Config) (p : Problem) (store : Store) (fuel : Nat)
+    (sched : List Choice) (obj : Tid → Iid) (H : RefHypF p obj) (hcf : cfg.contOnFail = true)
+    (hF : FuelOK p fuel) (hL : LimitsPos cfg p) (hfair : Fair sched)
+    (hlen : (plan cfg p store fuel).pending.length + 1 ≤ sched.length) (t : Tid) :
+    lookup t (run cfg p store fuel sched).store =
+      if t ∈ (plan cfg p store fuel).pending then storeAfter cfg p store obj t else lookup t store := by
+  have hr := loopHead_val cfg p store fuel sched obj H (Or.inl hcf)
+  obtain ⟨_, hall⟩ := loopHead_all_yielded cfg p store fuel sched H.acyc hF hL hfair hlen hr.run
+  rw [run_store, loopHead_store cfg p store fuel sched obj H (Or.inl hcf) t]
+  by_cases h : t ∈ (plan cfg p store fuel).pending
+  · rw [if_pos h, if_pos ((hall t).mp h)]
+  · rw [if_neg h, if_neg (fun h' => h ((hall t).mpr h'))]
+
+/-- the diamond with the duplicated object in which 1 raises and 2's worker dies -/
+def failP : Problem := { invExP with fails := fun t => t == 1, dies := fun t => t == 2 }
+
+theorem failP_refHypF : RefHypF failP id where
+  acyc := invExP_acyclic
+  inst := by
+    intro i j h
+    simp only [failP, invExP] at h ⊢
+    by_cases h4 : i = 4 <;> by_cases h4' : j = 4 <;> simp_all <;> grind
+  objOK := by
+    intro i
+    simp only [failP, invExP, id]
+    split <;> simp_all
+
+/-- non-vacuity, concrete: an UNSOUND warm cache (0 ↦ 5; the task would compute 0), 1 raises, 2 dies
+    (fork) or does not (serial, no worker process): 3 reads the failed ones as missing and is the only
+    requested task with a value; the store gains exactly the executed successful tasks -/
+example :
+    (run invExCfg failP [(0, 5)] 4 (List.replicate 5 chooseAll)).status = .returned [(3, 3014)] ∧
+    (dedup (reqTids failP)).filterMap (fun t => (refEvalF invExCfg failP [(0, 5)] id t).map (fun v => (t, v)))
+      = [(3, 3014)] ∧
+    (run invExCfg failP [(0, 5)] 4 (List.replicate 5 chooseAll)).store = [(3, 3014), (0, 5)] ∧
+    [0, 1, 2, 3].map (storeAfter invExCfg failP [(0, 5)] id) = [some 5, none, none, some 3014] ∧
+    (run { invExCfg with backend := .serial } failP [(0, 5)] 4 (List.replicate 5 chooseAll)).status
+      = .returned [(3, 5012)] ∧
+    (dedup (reqTids failP)).filterMap
+      (fun t => (refEvalF { invExCfg with backend := .serial } failP [(0, 5)] id t).map (fun v => (t, v)))
+      = [(3, 5012)] ∧
+    Ev.yield 2 .died ∈ (run invExCfg failP [(0, 5)] 4 (List.replicate 5 chooseAll)).trace ∧
+    refOutcome invExCfg failP [(0, 5)] id 2 = .died ∧ refOutcome invExCfg failP [(0, 5)] id 1 = .exc := by
+  decide
+
+/-- the hypotheses of `unrelated_tasks_return_reference` / `store_after_run` are satisfiable together -/
+example (be : Backend) :
+    (run { invExCfg with backend := be } failP [(0, 5)] 4 (List.replicate 5 chooseAll)).status =
+      .returned ((dedup (reqTids failP)).filterMap
+        (fun t => (refEvalF { invExCfg with backend := be } failP [(0, 5)] id t).map (fun v => (t, v)))) :=
+  unrelated_tasks_return_reference _ failP [(0, 5)] 4 _ id failP_refHypF rfl invExP_fuel
+    (invEx_limits be 2 (by decide)) (fair_replicate 5 chooseAll rfl) (by cases be <;> decide)
 
 end Lt.Props.C10
